@@ -26,8 +26,7 @@ pub fn gen_case<B: SimField>(ch: &mut Chooser, lim: &GenLimits) -> Case<B> {
     let blowup = gen_blowup(ch);
     let shape = gen_shape(ch, lim, blowup);
     let rows = gen_rows::<B>(ch, &shape);
-    let values = read_assertion_values(&shape, &rows);
-    let inputs = SimInputs { shape: shape.clone(), values };
+    let inputs = SimInputs::from_trace(&shape, &rows);
     let options = gen_options::<B>(ch, &shape, lim, blowup);
     Case { blowup, shape, rows, inputs, options }
 }
